@@ -65,10 +65,13 @@ check("C17","bounded-exhaustive: a Swagger 2.0 skeleton plus every single featur
 check("C18","bounded-exhaustive over Go types: every unnamed type of the grammar (16 leaf kinds, pointer, slice, map, one- and two-field structs with JSON tags) within a constructor budget of 2 (quick) / 3 (thorough), built by reflection, plus 21 hand-declared named/embedding/recursive types; boundary values per kind with one field varied at a time; three generator option sets; the encoding/json output of every value must validate against the generated schema once the returned component map is installed in a document and loaded",
  "encoding/json is the other program; nil slices/maps and values encoding as null are excluded as the property says; named types are a listed set, not an enumeration",
  "bounded exhaustive enumeration of (type, value, options) relating two programs (encoding/json and the schema generator)","3 C18")
+check("C15","three parts over one operation alphabet on a shared loaded document, its routers and schema: (1) frame condition, every operation alone leaves a deep structural hash of the shared state unchanged; (2) controlled cooperative scheduler, 9 colliding scenarios of 2-3 threads x 1-2 operations, scheduling points at sync operations (vsync shim), at accesses to package-level variables (instrumented) and between finding and using a route, all interleavings with <=2 (quick) / <=3 (thorough) preemptions, blocking and deadlock modelled, every call must return its stand-alone verdict; (3) a free-running -race pass for all pairs",
+ "scheduler sees sync operations, package-level variable accesses and operation boundaries only; heap races between those points are left to the frame condition and to the race detector (a detector, not a proof)",
+ "stateless exploration of thread interleavings under a controlled scheduler with a preemption bound, plus frame-condition hashing and a separate race-detector pass","3 C15")
 NA_REASON="check not built yet (work in progress; see DESIGN.md section 5)"
 m={"version":1,"setup_cmd":"bin/setup",
  "hooks":{"guard":"verif","enable":"go build -tags verif -overlay <generated> (bin/check does it on every invocation, regenerating the overlay from /repo's working tree)","baseline_off_cmd":"bin/baseline","source_commits":["4b7cd63"],"add_only":True},
- "engines":[{"name":ENGINE,"path":"mc/explore","serves_properties":sorted(C),"kind_free_text":"stateless depth-first enumeration of choice vectors with replay-by-prefix over the real implementation; deviation-bounded environment answers (map iteration order, reader answers, callbacks, schedules); 16 worker processes sharded by generation prefix; build-time instrumentation overlay owns map order and step budget"}],
+ "engines":[{"name":"controlled scheduler","path":"mc/checks/c15.go + mc/hooksrc/verifhook/vsync","serves_properties":["C15"],"kind_free_text":"cooperative scheduler over goroutines parked on channels; decisions are explorer choice points, switching away from a runnable thread costs one deviation (preemption bound)"},{"name":ENGINE,"path":"mc/explore","serves_properties":sorted(C),"kind_free_text":"stateless depth-first enumeration of choice vectors with replay-by-prefix over the real implementation; deviation-bounded environment answers (map iteration order, reader answers, callbacks, schedules); 16 worker processes sharded by generation prefix; build-time instrumentation overlay owns map order and step budget"}],
  "checks":[C[k] for k in sorted(C)],
  "not_applicable":[{"property_id":i,"reason":NA_REASON} for i in ids if i not in C]}
 json.dump(m,open('/verif/MANIFEST.json','w'),indent=1)
